@@ -559,16 +559,16 @@ func Done(k Kind, obj unsafe.Pointer, arg uint64) {
 	case KStore:
 		t.sig = t.sig.Mix(uint64(k), arg).MixH(l.w).MixH(l.r)
 		l.w, l.r = t.sig, H{}
-		t.vc[t.ID]++
 		l.vc = t.vc
 		x.raceAtomic(t, obj, true)
+		t.vc[t.ID]++ // accesses after the release must not be covered by it
 	case KRMW:
 		t.sig = t.sig.Mix(uint64(k), arg).MixH(l.w).MixH(l.r)
 		l.w, l.r = t.sig, H{}
 		t.vc.join(&l.vc)
-		t.vc[t.ID]++
 		l.vc = t.vc
 		x.raceAtomic(t, obj, true)
+		t.vc[t.ID]++
 	case KLock:
 		t.sig = t.sig.Mix(uint64(k)).MixH(l.w).MixH(l.r)
 		l.w, l.r = t.sig, H{}
@@ -577,8 +577,8 @@ func Done(k Kind, obj unsafe.Pointer, arg uint64) {
 	case KUnlock:
 		t.sig = t.sig.Mix(uint64(k)).MixH(l.w).MixH(l.r)
 		l.w, l.r = t.sig, H{}
-		t.vc[t.ID]++
 		l.vc = t.vc
+		t.vc[t.ID]++
 	case KRLock:
 		t.sig = t.sig.Mix(uint64(k)).MixH(l.w)
 		l.r.Add(t.sig.Mix(0xabc))
@@ -587,8 +587,8 @@ func Done(k Kind, obj unsafe.Pointer, arg uint64) {
 		// commutes with other readers' steps but is ordered before the next Lock
 		t.sig = t.sig.Mix(uint64(k)).MixH(l.w)
 		l.r.Add(t.sig.Mix(0xdef))
-		t.vc[t.ID]++
 		l.rvc.join(&t.vc)
+		t.vc[t.ID]++
 	case KSend, KRecv, KClose, KWGAdd, KOnce, KSpawn:
 		t.sig = t.sig.Mix(uint64(k), arg).MixH(l.w).MixH(l.r)
 		l.w, l.r = t.sig, H{}
@@ -611,12 +611,12 @@ func Release(dst *VC, joinInto bool) {
 		return
 	}
 	t := x.cur
-	t.vc[t.ID]++
 	if joinInto {
 		dst.join(&t.vc)
 	} else {
 		*dst = t.vc
 	}
+	t.vc[t.ID]++
 }
 
 func Acquire(src *VC) {
@@ -685,7 +685,6 @@ func Go(f func()) {
 		return
 	}
 	parent := x.cur
-	parent.vc[parent.ID]++
 	child := x.Spawn(fmt.Sprintf("go#%d", len(x.Threads)+1), func(t *Thread) {
 		defer func() {
 			if p := recover(); p != nil && !x.aborting {
@@ -698,6 +697,7 @@ func Go(f func()) {
 		}()
 		f()
 	})
+	parent.vc[parent.ID]++
 	child.sig = child.sig.MixH(parent.sig)
 	parent.sig = parent.sig.Mix(uint64(KSpawn), uint64(child.ID))
 	x.wepoch++
